@@ -441,6 +441,10 @@ def numeric_facts(v0, v1, sim0, sim1, env) -> Dict[str, Any]:
         "gain_le_plug": True,
         "plugmax": -1,
     }
+    # a powertrain DEFINED with an idle consumption of zero (denver_rl_toy's toy_car) has nothing to expend when idling
+    mech = env.mechatronics.get(v1.mechatronics_id)
+    rate = getattr(mech, "idle_kwh_per_hour", getattr(mech, "idle_gallons_per_hour", None))
+    facts["idle_rate_zero"] = bool(rate is not None and rate == 0)
     act1 = type(v1.vehicle_state).__name__
     act0 = type(v0.vehicle_state).__name__
     # the plug that delivered energy in this update (the activity after a possible default transition)
